@@ -17,12 +17,25 @@ TypeInfo == [
 TypeNames == DOMAIN TypeInfo
 
 \* largest magnitude on the positive / negative side
-\* (tabulated once per (signed, bits): the powers of two are long digit sequences)
-Widths == {8, 16, 32, 64, 128, 256}
-MaxTab == TLCEval([sg \in BOOLEAN |-> [b \in Widths |-> IF sg THEN Pred(Pow2(b - 1)) ELSE Pred(Pow2(b))]])
-MinTab == TLCEval([b \in Widths |-> Pow2(b - 1)])
-MaxMag(ti) == MaxTab[ti.signed][ti.bits]
-MinMag(ti) == IF ti.signed THEN MinTab[ti.bits] ELSE << >>
+\* the powers of two that bound the sized types, written out (TLC would otherwise recompute these long digit
+\* sequences at every use); the ASSUME makes TLC verify each of them against Dec!Pow2 once at start-up
+PowerOfTwo(k) == CASE
+                k = 7 -> <<1, 2, 8>>
+             [] k = 8 -> <<2, 5, 6>>
+             [] k = 15 -> <<3, 2, 7, 6, 8>>
+             [] k = 16 -> <<6, 5, 5, 3, 6>>
+             [] k = 31 -> <<2, 1, 4, 7, 4, 8, 3, 6, 4, 8>>
+             [] k = 32 -> <<4, 2, 9, 4, 9, 6, 7, 2, 9, 6>>
+             [] k = 63 -> <<9, 2, 2, 3, 3, 7, 2, 0, 3, 6, 8, 5, 4, 7, 7, 5, 8, 0, 8>>
+             [] k = 64 -> <<1, 8, 4, 4, 6, 7, 4, 4, 0, 7, 3, 7, 0, 9, 5, 5, 1, 6, 1, 6>>
+             [] k = 127 -> <<1, 7, 0, 1, 4, 1, 1, 8, 3, 4, 6, 0, 4, 6, 9, 2, 3, 1, 7, 3, 1, 6, 8, 7, 3, 0, 3, 7, 1, 5, 8, 8, 4, 1, 0, 5, 7, 2, 8>>
+             [] k = 128 -> <<3, 4, 0, 2, 8, 2, 3, 6, 6, 9, 2, 0, 9, 3, 8, 4, 6, 3, 4, 6, 3, 3, 7, 4, 6, 0, 7, 4, 3, 1, 7, 6, 8, 2, 1, 1, 4, 5, 6>>
+             [] k = 255 -> <<5, 7, 8, 9, 6, 0, 4, 4, 6, 1, 8, 6, 5, 8, 0, 9, 7, 7, 1, 1, 7, 8, 5, 4, 9, 2, 5, 0, 4, 3, 4, 3, 9, 5, 3, 9, 2, 6, 6, 3, 4, 9, 9, 2, 3, 3, 2, 8, 2, 0, 2, 8, 2, 0, 1, 9, 7, 2, 8, 7, 9, 2, 0, 0, 3, 9, 5, 6, 5, 6, 4, 8, 1, 9, 9, 6, 8>>
+             [] k = 256 -> <<1, 1, 5, 7, 9, 2, 0, 8, 9, 2, 3, 7, 3, 1, 6, 1, 9, 5, 4, 2, 3, 5, 7, 0, 9, 8, 5, 0, 0, 8, 6, 8, 7, 9, 0, 7, 8, 5, 3, 2, 6, 9, 9, 8, 4, 6, 6, 5, 6, 4, 0, 5, 6, 4, 0, 3, 9, 4, 5, 7, 5, 8, 4, 0, 0, 7, 9, 1, 3, 1, 2, 9, 6, 3, 9, 9, 3, 6>>
+BoundExponents == {7, 8, 15, 16, 31, 32, 63, 64, 127, 128, 255, 256}
+ASSUME \A k \in BoundExponents : PowerOfTwo(k) = Pow2(k)
+MaxMag(ti) == IF ti.signed THEN Pred(PowerOfTwo(ti.bits - 1)) ELSE Pred(PowerOfTwo(ti.bits))
+MinMag(ti) == IF ti.signed THEN PowerOfTwo(ti.bits - 1) ELSE << >>
 InRange(ti, neg, d) ==
   LET z == Len(Strip(d)) = 0 IN
   IF ti.bits = 0 THEN ti.signed \/ ~neg \/ z
